@@ -6,9 +6,25 @@ package hpa
 // typestate fact (C06): the HPA of the workload has been disabled in this reconcile without error
 //@ fact hpaDisabled
 
+//@ track findHPA as hpaLookup
+//@ track findHPAForWorkload as hpaLookupAll
+
+//@ func findHPAForWorkload
+//@ props C05
+//@ requires cli != nil && object != nil
+//@ ensures {C05} searches_v2_then_v1: (#hpaLookup == 1 && #hpaLookup.arg2 == "v2" && #hpaLookup.ret0 != nil) || (#hpaLookup == 2 && #hpaLookup.arg2 == "v1")
+
+// C05 (what the release disabled, the exit path must be able to find again): disabling and restoring look for the
+// workload's HPA in the same places - autoscaling/v2 first and, when nothing is found there, autoscaling/v1. An HPA that
+// only the v1 list shows would otherwise be renamed to "<name>-DisableByRollout" by the one and never found by the other.
 //@ func DisableHPA
-//@ props C06
+//@ props C05 C06
 //@ sets @hpaDisabled := result == nil
+//@ ensures {C05} searches_v2_then_v1: #hpaLookupAll == 1 || (#hpaLookup == 1 && #hpaLookup.arg2 == "v2" && #hpaLookup.ret0 != nil) || (#hpaLookup == 2 && #hpaLookup.arg2 == "v1")
+
+//@ func RestoreHPA
+//@ props C05
+//@ ensures {C05} searches_v2_then_v1: #hpaLookupAll == 1 || (#hpaLookup == 1 && #hpaLookup.arg2 == "v2" && #hpaLookup.ret0 != nil) || (#hpaLookup == 2 && #hpaLookup.arg2 == "v1")
 
 // C09 (F12): findHPA reads every HorizontalPodAutoscaler of the namespace untyped; whatever their scaleTargetRef holds
 // (apiVersion is optional, the tree is free-form for the reader), looking for the workload's HPA does not panic.
